@@ -374,6 +374,46 @@ pub fn lifetime(h: HashId, sk: &[u8]) -> Out<u64> {
     })
 }
 
+/// A `VerifyingKey` built from valid bytes whose pub `bytes` field is overwritten afterwards, then
+/// used to verify (the object must cope with whatever its public field holds).
+pub fn verify_with_mutated_key_object(h: HashId, good_pk: &[u8], new_bytes: &[u8], msg: &[u8], sig: &[u8]) -> Out<()> {
+    with_hash!(h, H => {
+        guard(|| {
+            let mut vk = VerifyingKey::<H>::from_bytes(good_pk).map_err(|_| ())?;
+            vk.bytes.clear();
+            for b in new_bytes.iter().take(vk.bytes.capacity()) {
+                vk.bytes.push(*b);
+            }
+            let s = hbs_lms::VerifierSignature::from_ref(sig).map_err(|_| ())?;
+            let r1 = vk.verify(msg, &s).map_err(|_| ());
+            if let Ok(s2) = hbs_lms::Signature::from_bytes(sig) {
+                let _ = vk.verify(msg, &s2);
+            }
+            r1
+        })
+    })
+}
+
+/// A `SigningKey` built from valid bytes whose pub `bytes` field is overwritten afterwards, then
+/// asked for its lifetime and a signature.
+pub fn use_mutated_signing_key_object(h: HashId, good_sk: &[u8], new_bytes: &[u8], msg: &[u8]) -> Out<()> {
+    with_hash!(h, H => {
+        guard(|| {
+            let mut key = SigningKey::<H>::from_bytes(good_sk).map_err(|_| ())?;
+            key.bytes.clear();
+            for b in new_bytes.iter().take(key.bytes.capacity()) {
+                key.bytes.push(*b);
+            }
+            let _ = key.get_lifetime();
+            let _ = SignerMut::try_sign(&mut key, msg);
+            let mut aux = vec![0u8; 300];
+            let mut slice: &mut [u8] = &mut aux[..];
+            let _ = key.try_sign_with_aux(msg, Some(&mut slice));
+            Ok(())
+        })
+    })
+}
+
 /// Byte-level constructors only (C06).
 pub fn constructors(h: HashId, sig: &[u8], pk: &[u8]) -> Out<()> {
     with_hash!(h, H => {
